@@ -7,6 +7,7 @@ Decided by folding and symbolic interpretation of the repository source (nothing
         control-transfer opcodes of the independent Dalvik table {0x0e-0x11, 0x27, 0x28-0x2c, 0x32-0x3d}.
         `determineNext` is interpreted once per opcode value: it must return a non-empty successor
         list on every path for exactly those opcodes and [] for every other opcode.
+(payload/targets) the switch targets that become leaders are the signed 32-bit words of the payload (see C11).
 (push)  `DEXBasicBlock(start)` starts empty at `start`; `push(i)` advances `end` by exactly
         `i.get_length()`, increments the instruction count by one and remembers the last length.
 (partition) a bounded generic-method model of `MethodAnalysis.__init__/_create_basic_block`: K = 2..3
@@ -31,7 +32,8 @@ from ..consts import Folder
 from ..model import ANALYSIS, DEX, AnalysisError, norm, walk_no_nested
 from ..spec import dalvik
 from .. import flowmodel as fm
-from .c11 import Sink, adequacy, canary, rename_local, fresh, patched
+from ..symflow import generic_items
+from .c11 import Sink, adequacy, canary, rename_local, fresh, patched, check_payload_targets
 
 QUICK_SCEN = [(0x00, 0x00), (0x00, 0x32), (0x32, 0x00), (0x32, 0x32), (0x00, 0x00, 0x00), (0x00, 0x32, 0x00)]
 THOROUGH_EXTRA = [(0x00, 0x00, 0x28), (0x0E, 0x00, 0x00), (0x2B, 0x00, 0x2B), (0x32, 0x27, 0x00), (0x28, 0x28, 0x00), (0x38, 0x00, 0x11), (0x2C, 0x3D, 0x29)]
@@ -93,6 +95,8 @@ def check_dn_domain(sink, repo, folder, dn, ops=range(256)):
         bad = None
         for p in paths:
             r = p.result
+            if isinstance(r, list):
+                r = generic_items(r)
             if isinstance(r, Raised):
                 bad = "raises %s" % r
             elif not isinstance(r, list):
@@ -102,6 +106,8 @@ def check_dn_domain(sink, repo, folder, dn, ops=range(256)):
             elif not want and len(r) != 0:
                 bad = "returns %s" % fm.pp(r)[:80]
             if bad:
+                if not isinstance(r, Raised):
+                    fm.exact(r, "determineNext for opcode 0x%02x" % op)
                 break
         if want:
             sink.check("opcode-set/determineNext", "op 0x%02x" % op, bad is None, dn, "determineNext: 0x%02x %s has no successor list" % (op, opname(op)),
@@ -200,12 +206,14 @@ def run(ctx):
     ctx.floor("basic_opcodes_reads", 1)
     check_dn_domain(ctx, repo, folder, dn)
     ctx.floor("dn_domain", 256)
+    check_payload_targets(ctx, repo, folder, dx)     # switch targets become leaders only if they are decoded as encoded
+    ctx.floor("payload_classes", 2)
     check_push(ctx, repo, folder, bb_cls)
     ctx.floor("push_scenarios", 3)
     scen = QUICK_SCEN + (THOROUGH_EXTRA if ctx.tier == "thorough" else [])
     check_partition(ctx, repo, folder, ma_cls, dn, de, basic, scen)
     ctx.floor("partition_scenarios", len(scen))
-    ctx.floor("partition_paths", 50)
+    ctx.floor("partition_paths", len(scen))
     ctx.assume("EncodedMethod.get_instructions_idx() yields (offset, instruction) with offset = sum of the lengths of the preceding "
                "instructions (decided under C40); determineException returns [start, end, [type, addr]...] per try (C08)")
     ctx.note("the partition is decided on a bounded generic model (2-3 symbolic instructions, all leader combinations), not as a behavioural fact on arbitrary methods")
@@ -218,7 +226,6 @@ def run(ctx):
                                                                    and n.value.func.attr in ("extend", "append", "update", "add")
                                                                    and isinstance(n.value.func.value, ast.Name)))
     canary(ctx, "determineNext domain", dn, lambda s: check_dn_domain(s, repo, folder, dn, ops=[0x00, 0x0E, 0x28, 0x32]), ["ret-empty"])
-    ctx.floor("positive_controls", 3)
     if ctx.tier == "thorough":
         _mutation_adequacy(ctx, repo, folder, ma, dx, ma_cls, bb_cls, dn, de, basic)
 
